@@ -10,6 +10,7 @@ mod c05;
 mod c06;
 mod c07;
 mod c08;
+mod c09;
 mod c13;
 mod c14;
 mod c15;
@@ -39,6 +40,7 @@ fn main() {
         "c06" => c06::run(&args[2..]),
         "c07" => c07::run(&args[2..]),
         "c08" => c08::run(&args[2..]),
+        "c09" => c09::run(&args[2..]),
         "c05" => c05::run(&args[2..]),
         "c03" => c03::run(&args[2..]),
         "c04" => c04::run(&args[2..]),
